@@ -4,7 +4,7 @@ from ..core import f2b, b2f
 from .. import samples as S, sample_checks as SC, kin, exact as X
 
 MODULE = "Momtrop.Props.C09"
-THEOREMS = []
+THEOREMS = ["Momtrop.C09.complete_the_square", "Momtrop.C09.quad_nonneg", "Momtrop.C09.V_is_min", "Momtrop.C09.V_basis_invariant", "Momtrop.C09.V_orientation_invariant", "Momtrop.C09.V_offset_invariant", "Momtrop.C09.model_u", "Momtrop.C09.model_v"]
 RULE = ("accepted connected graphs with 1..3 (quick) / 1..5 (thorough) loops, masses on random edge subsets, exactly conserved dyadic "
         "external momenta routed through a random spanning tree; each point is sampled under 3 routings of the same kinematics "
         "(fundamental basis; unimodular change of basis incl. entries >=2, edge re-orientations, loop-momentum offsets; sparse face "
